@@ -3,6 +3,9 @@
 package dkg
 
 import (
+	"fmt"
+
+	"github.com/keep-network/keep-core/internal/testutils"
 	"math/big"
 	"testing"
 	"time"
@@ -142,6 +145,46 @@ func TestVerif_C19_TecdsaDkgRoundTrip(t *testing.T) {
 
 func TestVerif_C19_TecdsaDkgHostile(t *testing.T) {
 	c19wire.RunHostile(t, "TestVerif_C19_TecdsaDkgHostile", c19Codecs())
+}
+
+// c19Loaders: the pre-parameters pool loader, the only production caller of
+// PreParams.Unmarshal (runs when the node boots).
+func c19Loaders() []c19wire.Loader {
+	codecs := c19Codecs()
+	record := len(codecs) - 1 // tecdsa/dkg.PreParams
+	return []c19wire.Loader{{
+		Name:   "tecdsa/dkg.preParamsStorage.ReadAll",
+		Codecs: codecs, Record: record, Dir: dirName,
+		Load: func(h *c19wire.MemHandle) ([]string, error) {
+			storage := newPreParamsStorage(h, &testutils.MockLogger{})
+			all, err := storage.ReadAll()
+			if err != nil {
+				return nil, err
+			}
+			var out []string
+			for _, p := range all {
+				if p == nil || p.Data.data == nil || !p.Data.data.ValidateWithProof() {
+					return nil, fmt.Errorf("ReadAll returned an unusable record %v", p)
+				}
+				out = append(out, p.ID+":"+c19wire.Render(&p.Data))
+			}
+			return out, nil
+		},
+		Expect: func(f c19wire.File) (string, bool) {
+			v, ok := c19wire.Decode(&codecs[record], f.Content)
+			if !ok {
+				return "", false
+			}
+			if pp := v.(*PreParams); pp.data == nil || !pp.data.ValidateWithProof() {
+				return "", false
+			}
+			return f.Name + ":" + c19wire.Render(v), true
+		},
+	}}
+}
+
+func TestVerif_C19_TecdsaDkgLoaders(t *testing.T) {
+	c19wire.RunLoaders(t, "TestVerif_C19_TecdsaDkgLoaders", c19Loaders())
 }
 
 func FuzzVerif_C19_TecdsaDkg(f *testing.F) { c19wire.RunFuzz(f, c19Codecs()) }
